@@ -49,7 +49,7 @@ fn doassign_case(name: &'static str, keyword: bool) {
 macro_rules! doassign_harness {
     ($name:ident, [$(($k:expr, $s:expr, $kw:expr)),+]) => {
         #[kani::proof]
-        #[kani::unwind(10)]
+        #[kani::unwind(16)]
         #[kani::stub(alloc::fmt::format, crate::verif_common::fmt_stub)]
         #[kani::stub(crate::expressions::evaluate_ast, rhs_probe)]
         fn $name() {
